@@ -2,7 +2,7 @@
     Serialisation of results happens here (inside Coq), the OCaml driver only moves bytes. *)
 From Coq Require Import List String Ascii Bool Arith.
 From Spil Require Import Base.Str Base.Dict Base.Outcome Base.Tree Base.PyPath Regex.Re
-  Resolva.Template Resolva.Resolver Conf.ConfUtil Conf.Conf Sid.Query Sid.Sid.
+  Resolva.Template Resolva.Resolver Conf.ConfUtil Conf.Conf Sid.Query Sid.Sid Search.Unfold Search.FindList.
 Import ListNotations.
 Local Open Scope string_scope.
 
@@ -108,6 +108,21 @@ Definition dispatch (op : string) (args : list tree) : tree :=
   | "dict_to_path", [d; L ty; L cfg] =>
       match t_pairs d with Some d => t_out L (dict_to_path Ld d ty cfg) | None => bad end
   | "norm_path", [L p] => L (norm_path p)
+  | "unfold", [L q; L uniq; L extra] =>
+      t_out (fun l => N (map t_sid l)) (unfold_search Ld q (String.eqb uniq "1") (String.eqb extra "1"))
+  | "extensions", [L q] => t_out L (extensions Ld q)
+  | "or_op", [L q] => t_out (fun l => of_strs (sort_s l)) (or_op q)
+  | "expand", [L q] => t_out (fun l => N (map t_sid (sort_sids l))) (expand Ld q)
+  | "find_list", [items; L q] =>
+      match t_strs items with Some it => t_out of_strs (find_list Ld it q) | None => bad end
+  | "find_list_sids", [items; L q] =>
+      match t_strs items with Some it => t_out (fun l => N (map t_sid l)) (find_list_sids Ld it q) | None => bad end
+  | "find_one", [items; L q] =>
+      match t_strs items with Some it => t_out (t_opt L) (find_one Ld it q) | None => bad end
+  | "exists", [items; L q] =>
+      match t_strs items with Some it => t_out t_bool (exists_ Ld it q) | None => bad end
+  | "match", [s; L q] => with_sid s (fun x => t_out t_bool (sid_match Ld x q))
+  | "glob_match", [L pat; L item] => t_out t_bool (glob_match pat item)
   | "dump", [] =>
       N [of_pairs (l_sid_templates Ld);
          N (map (fun e => N [L (fst e); L (fst (snd e)); L (fst (snd (snd e))); of_strs (snd (snd (snd e)))])
